@@ -22,6 +22,7 @@ fn render(items: &[Value], dir: &Path) -> String {
                     "loop" => t.push_str(&format!("for i in ${{arr}}\no = {} \"{}\"\nend\n", cmd, m)),
                     "branch" => t.push_str(&format!("if true\no = {} \"{}\"\nend\n", cmd, m)),
                     "script" => t.push_str("o = array_join nothandle ,\n"),
+                    "loopscript" => t.push_str("for i in ${arr}\no = array_join nothandle ,\nend\n"),
                     "incl" => t.push_str(&format!("!include_files \"{}\"\n", dir.join(if m == "m1" { "inc one.ds" } else { "inc_two.ds" }).to_string_lossy())),
                     x => panic!("ctx {}", x),
                 }
@@ -115,7 +116,7 @@ pub fn record(args: &[String]) {
         let mut items = vec![];
         for _ in 0..len {
             items.push(match r.below(10) {
-                0..=4 => { let ctx = *r.pick(&["top", "fn", "loop", "branch", "script", "incl"]); json!({"k": "fail", "ctx": ctx, "m": if ctx == "script" { "*" } else { *r.pick(&["m1", "m two"]) }}) }
+                0..=4 => { let ctx = *r.pick(&["top", "fn", "loop", "branch", "script", "loopscript", "incl"]); json!({"k": "fail", "ctx": ctx, "m": if ctx == "script" || ctx == "loopscript" { "*" } else { *r.pick(&["m1", "m two"]) }}) }
                 5 => { let on = r.chance(1, 3); json!({"k": "eoe", "on": on, "sp": if on { *r.pick(&["true", "1", "yes"]) } else { *r.pick(&["false", "0", "no"]) }}) },
                 _ => json!({"k": "obs"}),
             });
